@@ -1,6 +1,7 @@
 package main
 
 import (
+	"bufio"
 	"bytes"
 	"context"
 	"crypto/tls"
@@ -51,6 +52,7 @@ type c16Case struct {
 	rounds  int
 	size    int
 	empty   bool // messages carry no marker either: zero-length payloads
+	bigReads bool // the handler reads the request body through a 32 KiB buffer instead of exact-size reads
 	shape   int // stServer, stClient, stBidi
 	method  *MethodInfo
 	cfg     *SvcConfig
@@ -59,7 +61,7 @@ type c16Case struct {
 }
 
 func (k *c16Case) String() string {
-	return fmt.Sprintf("%s->%s codec %s->%s comp %q->%v rounds=%d size=%d empty=%v shape=%s", k.form, k.target, k.codecC, k.codecS, k.compC, k.compS, k.rounds, k.size, k.empty, streamName(k.shape))
+	return fmt.Sprintf("%s->%s codec %s->%s comp %q->%v rounds=%d size=%d empty=%v bigreads=%v shape=%s", k.form, k.target, k.codecC, k.codecS, k.compC, k.compS, k.rounds, k.size, k.empty, k.bigReads, streamName(k.shape))
 }
 
 func genC16(r *rand.Rand, h2cLeg bool) *c16Case {
@@ -88,6 +90,7 @@ func genC16(r *rand.Rand, h2cLeg bool) *c16Case {
 	}
 	// every fifth scenario sends messages with no field set: a zero-length payload behind the envelope
 	k.empty = k.size == 0 && chance(r, 60)
+	k.bigReads = chance(r, 50)
 	mk := func(i int, tag string) proto.Message {
 		if k.empty {
 			return newMsg(k.method.In())
@@ -172,6 +175,11 @@ func (h *c16Handler) ServeHTTP(w http.ResponseWriter, r *http.Request) {
 		w.Header().Set(encH, "gzip")
 	}
 	fr := &frameReader{r: r.Body}
+	if k.bigReads {
+		// like io.Copy, bufio or a reverse proxy: every Read offers far more room than one message needs, so a
+		// reader that fills the buffer instead of returning with the message it has would wait for the next one
+		fr.r = bufio.NewReaderSize(r.Body, 32<<10)
+	}
 	readOne := func() bool {
 		fl, payload, err := fr.next()
 		if err != nil {
